@@ -37,6 +37,14 @@ CLAIMED = {
          "Collector.tla resolves each wire specifier against the registry per decoding mode (strict rejects and invalidates, keep delivers an octet array of the wire length, drop omits the value); the same template and data bytes are fed to three real collectors and TLC validates all three outcomes against the same reference parse, so known fields are unaffected by unknown ones in every mode.",
          "Trusted: TLC, harness; the registry used by the spec is dumped from the real registry.",
          "TLA+ Collector spec + TLC trace validation of the three decoding modes on identical bytes"),
+ "C10": ("DESIGN.md §4 C10",
+         "TemplateLife.tla models timer firing, the callback's clock read and the callback's locked run as three separate actions, one timer per template object. TLC checks NoEarlyDrop / ExpiryPending / NoOutlive / TimerBelongs exhaustively (2 keys, TTL 2, up to 800 k states) and the liveness 'expired ~> discarded' under weak fairness. Edge-covering walks of TLC's state graph are replayed on a real collector whose clock and timers are the harness's (verif hook): the callback's clock read is the gate that realises fired-but-pending schedules; store, timers and in-flight callbacks are compared with the spec after every step and the invariants are evaluated on every state of every trace.",
+         "Trusted: TLC, harness clock/timer implementation (it mimics time.AfterFunc Stop/Reset semantics), verif hooks. The real time package is not exercised by engine A.",
+         "TLA+ TemplateLife spec (TLC exhaustive + liveness) + replay of TLC state-graph schedules on the real code + TLC trace validation"),
+ "C11": ("DESIGN.md §4 C11",
+         "Framing.tla composes a per-connection byte stream (any segmentation) with Collector.tla; FramingMC explores all segmentations and interleavings of two small streams with an undecodable message anywhere. The real connection handler is run on every single/double cut point and byte-by-byte splits (in-memory connection: one write = one read boundary) and on real loopback sockets with random cuts and delays; TLC checks that each delivery is the decoding of exactly the next whole frame of its connection and that End happens exactly on the first undecodable message or on client close with nothing pending.",
+         "Trusted: TLC, harness, verif hook VerifHandleTCPConn. Kernel-level segmentation on loopback is whatever the kernel does; the in-memory part is deterministic.",
+         "TLA+ Framing spec (TLC exhaustive) + exhaustive cut-point driving of the real handler + TLC trace validation"),
 }
 PENDING = {}
 
